@@ -610,13 +610,27 @@ func (c *Ctx) entailsLinearRec(env *linEnv, pc *Formula, facts []LinFact, depth 
 			background = append(background, Constraint{lin: ln.scale(big.NewRat(-1, 1)), why: "len ≥ 0"})
 		}
 	}
+	// … and their (index, found) form: the index stays below len(list)
+	addIdx3 := func(t *Term) {
+		if t.Kind != "extract" || t.Name != "0" || len(t.Args) != 1 || t.Args[0].Kind != "call" || t.Args[0].Fn == nil || seenIdx[t.Key()] {
+			return
+		}
+		ct := t.Args[0]
+		if li := tupleIndexSearch(c.p, ct.Fn); li >= 0 && li < len(ct.Args) {
+			seenIdx[t.Key()] = true
+			v := linVar(t)
+			ln := linVar(lenOf("len", ct.Args[li]))
+			background = append(background, leq(v, ln, -1, t.String()+" < len"))
+			background = append(background, Constraint{lin: ln.scale(big.NewRat(-1, 1)), why: "len ≥ 0"})
+		}
+	}
 	for _, at := range full.Atoms() {
-		at.walk(func(x *Term) bool { addIdx(x); addIdx2(x); return true })
+		at.walk(func(x *Term) bool { addIdx(x); addIdx2(x); addIdx3(x); return true })
 	}
 	for _, f := range facts {
-		f.A.walk(func(x *Term) bool { addIdx(x); addIdx2(x); return true })
+		f.A.walk(func(x *Term) bool { addIdx(x); addIdx2(x); addIdx3(x); return true })
 		if f.B != nil {
-			f.B.walk(func(x *Term) bool { addIdx(x); addIdx2(x); return true })
+			f.B.walk(func(x *Term) bool { addIdx(x); addIdx2(x); addIdx3(x); return true })
 		}
 	}
 	// induction variables: φ(c0, φ + k) with k > 0 never drops below c0 (covers range indices)
